@@ -134,6 +134,14 @@ def limiter_arith(ctx):
 TIMEOUT_MS = 2500
 
 
+def start_obs(res):
+    """The raw facts of one start-up observation, as Spec.C19.StartObs wants them."""
+    res = res if isinstance(res, dict) else {"died": True}
+    fr = (res.get("loaded") or {}).get("first_requests", []) if isinstance(res.get("loaded"), dict) else []
+    return {"died": bool(res.get("died")), "panicked": "panic" in res, "rejected": "rejected" in res,
+            "loaded": "loaded" in res, "late": [r[2] for r in fr if r[1] == "timeout"], "timeout_ms": TIMEOUT_MS}
+
+
 def classify(res):
     """Outcome class of a start-up + first request.  A first request that did not happen within the
     time-out is a hang only if the model of the limiter (`sleepMs`, proved ≤ 1 h and followed by an
@@ -187,8 +195,9 @@ def config_part(ctx):
         ops = [{"op": "first_request", "path": p, "timeout_ms": TIMEOUT_MS} for _, p, _ in cases]
         # several probe processes in parallel would contend for nothing; one is enough (≈10 ms each)
         impl = vlib.probe(ops, timeout=1800)
-        classes = [classify(res) for res in impl]
-        cverdicts = vlib.model([{"op": "c19_judge", "outcome": c} for c in classes]) if classes else []
+        # the raw observation goes to Lean: Spec.C19.classify + startupHolds (no interpretation here)
+        cverdicts = vlib.model([{"op": "c19_judge", "start_obs": start_obs(res)} for res in impl]) if impl else []
+        classes = [cv.get("class", "unknown") for cv in cverdicts]
         for (label, path, cfg), res, cls, cv in zip(cases, impl, classes, cverdicts):
             ctx.count("config:" + cls)
             ctx.case({"config": label})
